@@ -319,6 +319,39 @@ fn run(e: &Engine) {
     // regression inputs (design-phase observations and past failures)
     let fixed: Vec<Case> = [&b"@1!!2"[..], b"@0!!", b"@11!!", b"@!", b"@1!", b"@-", b"@+!+"].iter().map(|b| Case::List { bytes: B(b.to_vec()) }).collect();
     e.fixed("regression-inputs", fixed, check);
+    // long runs of one lexical class in every element position (counters, length limits)
+    let mut long: Vec<Case> = Vec::new();
+    let lens: Vec<usize> = (250..=262).chain(508..=516).chain([1000, 4095, 4096, 65534, 65535, 65536, 65537, 70000]).collect();
+    for n in &lens {
+        let run = |c: u8| -> Vec<u8> { vec![c; *n] };
+        let templates: Vec<Vec<u8>> = vec![
+            [&b":A 1"[..], &run(b'V')].concat(),                 // suffix
+            [&b":A 1 "[..], &run(b'V')].concat(),
+            [&b":A "[..], &run(b'C')].concat(),                  // character data
+            [&b":"[..], &run(b'A')].concat(),                    // mnemonic
+            [&b"*"[..], &run(b'A'), &b"?"[..]].concat(),         // common mnemonic
+            [&b":A "[..], &run(b'1')].concat(),                  // digits
+            [&b":A 1."[..], &run(b'0'), &b"1"[..]].concat(),
+            [&b":A 1e"[..], &run(b'9')].concat(),
+            [&b":A #H"[..], &run(b'F')].concat(),
+            [&b":A '"[..], &run(b'x'), &b"'"[..]].concat(),      // string
+            [&b":A ("[..], &run(b'1'), &b")"[..]].concat(),      // expression
+            [&b":A (@"[..], &run(b'1'), &b")"[..]].concat(),
+            [&b":A"[..], &run(b' '), &b"1"[..]].concat(),        // white space
+            [&b":A 1"[..], &run(b','), &b"1"[..]].concat(),
+            [&b":A"[..], &run(b';')].concat(),
+            [&b":A #9"[..], &run(b'9')].concat(),                // block length field
+            [&run(b':')[..], &b"A"[..]].concat(),
+        ];
+        for t in templates {
+            long.push(Case::Fixed { bytes: B(t), plans: vec![] });
+        }
+        long.push(Case::List { bytes: B([&b"@"[..], &run(b'1')].concat()) });
+        long.push(Case::List { bytes: B([&b"@1"[..], &run(b'!')].concat()) });
+        long.push(Case::List { bytes: B(run(b'1')) });
+        long.push(Case::List { bytes: B([&b"@'"[..], &run(b'p'), &b"'"[..]].concat()) });
+    }
+    e.fixed("long-runs", long, check);
     e.proptest("mutated-messages-fixed-tree", e.tier.pick(150_000, 5_000_000), fixed_case, check);
     e.proptest("mutated-messages-generated-trees", e.tier.pick(100_000, 3_000_000), generated_case, check);
     e.proptest("raw-bytes", e.tier.pick(150_000, 5_000_000), raw_case, check);
